@@ -39,7 +39,9 @@ def generate(seed: int, tier: str = "quick") -> dict:
     world["prices"][token] = [format(x, ".2f") for x in path]
     scale = 1 if token == "ETH" else 15
     offs = [("abs", 0), ("abs", 0), ("abs", 1), ("abs", -1), ("abs", 2 * scale), ("abs", -2 * scale), ("abs", 30 * scale),
-            ("abs", -30 * scale), ("abs", 200 * scale), ("abs", -200 * scale)]
+            ("abs", -30 * scale), ("abs", 200 * scale), ("abs", -200 * scale),
+            # strikes far from the underlying: a put struck at more than twice the underlying pays more than one coin per contract
+            1.3, 2.6, -0.6]
     mw = W.gen_deribit_market(
         rw, "drb0", n, {token: path}, token=token, start=world["start"],
         expiries=["on_hour", "on_hour", "between", "between", "before_first", "after_last"],
